@@ -7,7 +7,7 @@ import (
 
 // DispatchForms are the ways a function body can transfer control to a target function (C12, C18).
 var DispatchForms = []string{"static", "fvar", "ffield", "fslice", "fmap", "closure", "mvalue", "mexpr", "iface", "ifacePtr", "embedded",
-	"generic", "deferred", "go", "goClosure", "fparam", "deferArg", "goArg", "ifaceWiden", "globalInit", "retFunc", "chanFunc", "ifaceTwo", "ifaceShared", "mapKeyIface", "mapKeyPtr", "mapKeyChan", "mapKeyField", "namedArrRange", "namedArrIndex", "namedArrIface", "namedSlice", "namedMap"}
+	"generic", "deferred", "go", "goClosure", "fparam", "deferArg", "goArg", "ifaceWiden", "globalInit", "retFunc", "chanFunc", "ifaceTwo", "ifaceShared", "mapKeyIface", "mapKeyPtr", "mapKeyChan", "mapKeyField", "namedArrRange", "namedArrIndex", "namedArrIface", "namedSlice", "namedMap", "ifaceMV", "ifaceMexpr"}
 
 type dform struct {
 	decls []string
@@ -55,6 +55,18 @@ func dispatch(form string, n int, target string) dform {
 		s("var i%d I = W%d{}", n, n)
 		s("if rt.Cond() {\n\ti%d = V%d{}\n}", n, n)
 		s("i%d.M()", n)
+	case "ifaceMV":
+		// bound method value of an interface value (I.M$bound)
+		d("type W%d struct{}\nfunc (W%d) M() {\n"+fmt.Sprintf(enter, fmt.Sprintf("W%d.M", n))+"\t%s()\n}", n, n, target)
+		s("var ib%d I = W%d{}", n, n)
+		s("bm%d := ib%d.M", n, n)
+		s("bm%d()", n)
+	case "ifaceMexpr":
+		// method expression of an interface type (I.M$thunk)
+		d("type W%d struct{}\nfunc (W%d) M() {\n"+fmt.Sprintf(enter, fmt.Sprintf("W%d.M", n))+"\t%s()\n}", n, n, target)
+		s("var ie%d I = W%d{}", n, n)
+		s("te%d := I.M", n)
+		s("te%d(ie%d)", n, n)
 	case "ifacePtr":
 		d("type P%d struct{ x int }\nfunc (p *P%d) M() {\n"+fmt.Sprintf(enter, fmt.Sprintf("P%d.M", n))+"\t%s()\n}", n, n, target)
 		s("var i%d I = &P%d{}", n, n)
